@@ -12,5 +12,9 @@ func init() {
 			"if err := r.pools.Remove(ctx, *config); err != nil {\n\t\treturn err\n\t}", "r.pools.Remove(ctx, *config)", "C14-E1", "(*lake.Root).RemovePool -> (*lake/pools.Store).Remove"},
 		Mutant{"C12", "c12-writehead-error-ignored", "lake/journal/queue.go", "Queue.CommitAt",
 			"return q.writeHead(ctx, at+1)", "q.writeHead(ctx, at+1)\n\treturn nil", "C12-E1", "(*lake/journal.Queue).CommitAt -> (*lake/journal.Queue).writeHead"},
+		Mutant{"C11", "c11-validate-net-size-unchecked", "value.go", "checkPrimitiveSize",
+			"\tcase TypeNet:\n\t\tok = n == 8 || n == 32\n", "", "C11-V4", "super.DecodeNet"},
+		Mutant{"C11", "c11-validate-leaf-sizes-unchecked", "value.go", "Value.Validate",
+			"return checkPrimitiveSize(typ, body)", "return nil", "C11-V4", "super.DecodeFloat64"},
 	)
 }
